@@ -129,6 +129,24 @@ func (s *SMTPSession) Greeting() (Reply, bool) {
 	return rs[0], true
 }
 
+// Greet waits for the 220 banner; a fired watchdog is reported as an error starting "watchdog:".
+func (s *SMTPSession) Greet() (Reply, error) {
+	rs, mal, _, ok := s.Step(nil)
+	if !ok {
+		return Reply{}, fmt.Errorf("watchdog: no greeting, session neither idle nor closed")
+	}
+	if mal != "" || len(rs) != 1 {
+		return Reply{}, fmt.Errorf("greeting is not one well-formed reply (%d replies, %s)", len(rs), mal)
+	}
+	return rs[0], nil
+}
+
+// IsWatchdog reports whether err came from a fired watchdog (inconclusive / hang candidate, never
+// a verdict on its own).
+func IsWatchdog(err error) bool {
+	return err != nil && strings.HasPrefix(err.Error(), "watchdog:")
+}
+
 // Cmd sends one command line and returns the single reply expected for it.  err describes any
 // deviation (no reply, several replies, malformed, watchdog).
 func (s *SMTPSession) Cmd(line string) (Reply, error) {
